@@ -49,13 +49,15 @@ def ensure_can_construct_http_header_dict(
         # Full runtime checking of the contents of a Mapping is expensive, so for the
         # purposes of typechecking, we assume that any Mapping is the right shape.
         return typing.cast(typing.Mapping[str, str], potential)
+    elif hasattr(potential, "keys") and hasattr(potential, "__getitem__"):
+        # Checked before Iterable, like dict.update() does: such an object (e.g. an
+        # http.client.HTTPMessage) iterates over its names, not over pairs.
+        return typing.cast("HasGettableStringKeys", potential)
     elif isinstance(potential, typing.Iterable):
         # Similarly to Mapping, full runtime checking of the contents of an Iterable is
         # expensive, so for the purposes of typechecking, we assume that any Iterable
         # is the right shape.
         return typing.cast(typing.Iterable[tuple[str, str]], potential)
-    elif hasattr(potential, "keys") and hasattr(potential, "__getitem__"):
-        return typing.cast("HasGettableStringKeys", potential)
     else:
         return None
 
@@ -349,18 +351,20 @@ class HTTPHeaderDict(typing.MutableMapping[str, str]):
         elif isinstance(other, typing.Mapping):
             for key, val in other.items():
                 self.add(key, val)
-        elif isinstance(other, typing.Iterable):
-            other = typing.cast(typing.Iterable[tuple[str, str]], other)
-            for key, value in other:
-                self.add(key, value)
         elif hasattr(other, "keys") and hasattr(other, "__getitem__"):
             # THIS IS NOT A TYPESAFE BRANCH
             # In this branch, the object has a `keys` attr but is not a Mapping or any of
             # the other types indicated in the method signature. We do some stuff with
             # it as though it partially implements the Mapping interface, but we're not
             # doing that stuff safely AT ALL.
+            # It comes before the Iterable branch (as in dict.update()): iterating such
+            # an object, e.g. an http.client.HTTPMessage, yields names and not pairs.
             for key in other.keys():
                 self.add(key, other[key])
+        elif isinstance(other, typing.Iterable):
+            other = typing.cast(typing.Iterable[tuple[str, str]], other)
+            for key, value in other:
+                self.add(key, value)
 
         for key, value in kwargs.items():
             self.add(key, value)
